@@ -246,8 +246,14 @@ def replay_history(g, enc, problem, hist, tid=0, bad=False):
         # the fast encoder declares other variables (forced choices are variables there): the histories were generated
         # for the complete encoder's problem and do not apply
         return {'tid': tid, 'skip': 'different design variables for this encoder'}
+    # cached observers are asked BEFORE the history and after every fix / free as well, not only at the end: a stale
+    # answer needs an earlier answer to be stale from
+    if enc == 'complete':
+        r.step({'op': 'Enumerate'})
     for op in hist:
         r.step(op)
+        if op['op'] in ('Fix', 'Free') and enc == 'complete':
+            r.step({'op': 'Enumerate'})
     r.probe()
     if bad:
         r.bad_fixes()
